@@ -267,11 +267,11 @@ Definition segAnswer (fx : bool) (r : rep) (loopMS : Z) (c : tcfg) (codes : list
   end.
 
 (** Generated subtitle tracks (timesubsstpp_/timesubswvtt_: timestpp-<lang>/<nr>.m4s) have no
-    representation data.  As the code is, calcStatusCode starts with findRepAndSegmentID, which does
-    not find them: with any statuscode_ pattern configured every media segment of such a track is
-    answered 404, scheduled or not.  (With proposed_fixes/C14-statuscode-generated-subtitles.diff
-    they follow the reference track like audio: [segAnswer] with [audio = Some (1000, 1)], the
-    subtitle timescale.) *)
+    representation data.  Since fccb54a calcStatusCode looks them up in the reference track like
+    audio: [segAnswer] with [audio = Some (1000, 1)], the subtitle timescale.  Before that it
+    started with findRepAndSegmentID, which does not find them: with any statuscode_ pattern
+    configured every media segment of such a track was answered 404, scheduled or not; that is
+    [subsAnswerUnrepaired], used by the harness when it finds the repair reverted. *)
 Definition subsAnswerUnrepaired (c : tcfg) (codes : list sscode) (nowMS base : Z) : answer :=
   if negb (forallb codeValid codes) then AStatus 400 else
   if nowMS <? startS c * 1000 then AStatus 425 else
